@@ -112,6 +112,12 @@ def run_opt(case):
         m = sites[j % len(sites)]
         if cn.position_cn(m[0]) > 0:
             extra[m] = 1
+    if case.get("twin_extra"):
+        # multi-allelic pressure: reads for the OTHER alternative at a site where a planted copy carries a variant
+        carried_pos = {p for _, ms in copies for p, _ in ms}
+        for m in sites:
+            if m[0] in carried_pos and not any(m in ms for _, ms in copies) and cn.position_cn(m[0]) > 0:
+                extra[m] = 1
     noise = (0.7, 1.3) if case["noisy"] else (1.0, 1.0)
     raw = gen_evid.planted_table(gene, copies, case["depth"], sites, rng, noise, extra, drop=case["drop"] / 100.0)
     # phases: fragments consistent with one planted copy over 2-3 catalogue positions (+ chimeric ones)
@@ -136,6 +142,8 @@ def run_opt(case):
     sols = estimate_minor(gene, cov, [major], "cbc", max_solutions=case["mms"])
     labels = [f"gene:{case['gene']}", f"copies:{len(struct)}", "phases" if phases else "no-phases", "noisy" if case["noisy"] else "exact",
               "fused" if any(c != "1" for c in struct) else "default-only"]
+    if any(m[0] in {p for _, ms in copies for p, _ in ms} for m in extra):
+        labels.append("multi-allelic-evidence")
     viol = []
     try:
         best, nfeas, t2 = refmodels.rmin(gene, prof, raw, major_counts, cn, phases=phases)
@@ -268,7 +276,8 @@ def strategy(tier):
         d = {"kind": st.just("opt"), "gene": st.just(g), "build": st.sampled_from(["hg19", "hg38"]),
              "struct": st.lists(st.integers(0, 9), min_size=1, max_size=3), "depth": st.sampled_from([10, 20]),
              "noisy": st.booleans(), "extra": st.lists(st.integers(0, 30), max_size=2), "drop": st.sampled_from([0, 0, 20]),
-             "phases": st.sampled_from([0, 0, 6, 20]), "mms": st.just(1), "seed": st.integers(0, 10 ** 6)}
+             "phases": st.sampled_from([0, 0, 6, 20]), "mms": st.just(1), "seed": st.integers(0, 10 ** 6),
+             "twin_extra": st.booleans()}
         if g == "gen":
             d["db"] = gen_db.db_specs(gaps=False, pseudo=True, force_sv=True, small=True, max_sites=5, max_alleles=5, twins=True)
         return st.fixed_dictionaries(d)
